@@ -387,6 +387,20 @@ func GenUciSession(prop string, seed uint64) *Scenario {
 				for _, i := range permK(rng, len(lm), k) {
 					ms = append(ms, lm[i].String())
 				}
+				// a strict subset of the promotions of one pawn (typically a
+				// single under-promotion) when the root has promotions
+				var promos []string
+				for _, m := range lm {
+					if m.Promo != 0 && m.Promo != rules.Q {
+						promos = append(promos, m.String())
+					}
+				}
+				if len(promos) > 0 && rng.Chance(0.6) {
+					ms = []string{promos[rng.Intn(len(promos))]}
+					if rng.Chance(0.3) && len(lm) > 1 {
+						ms = append(ms, lm[rng.Intn(len(lm))].String())
+					}
+				}
 				goLine = fmt.Sprintf("go depth %d searchmoves %s", rng.Range(1, maxD), strings.Join(ms, " "))
 			}
 		}
